@@ -27,12 +27,24 @@ RULE = ('histories of 1-30 calls over 1-3 Ipmi objects (pyipmi.create_connection
         'component descriptions over all non-NUL bytes incl. printable text with backslash sequences (pool shared '
         'with the descriptors of find_component_id_by_descriptor), fan trays of both command-set revisions '
         '(R1.0/R2.0: three-byte Set Fan Level only; R3.0: optional fourth byte), PICMG 3.x and OEM (F0h..FFh) '
-        'link types, second sensor state bytes with the reserved bit 7 returned as 1.  A case = one call; distinct '
+        'link types, second sensor state bytes with the reserved bit 7 returned as 1.  STRING ARGUMENTS (user names, '
+        'passwords, component descriptors; the only str parameters of the exercised operations): printable text of every '
+        'length 0..16 and, half of the generated names / passwords plus two directed histories per shape (NAME_SHAPES), '
+        'strings that BEGIN and / or END with a blank character (space, tab, newline, CR, VT, FF, 1Ch, 1Fh - what '
+        'str.strip() removes), consist of blanks only, carry blanks inside only, fill all 16 characters with the blank '
+        'last / first, hold a NUL before the last character, and pairs of names that differ by one such character '
+        'written to two users and read back; stored user names of the reference BMC begin / end with a blank in about a '
+        'quarter of the states, component descriptions "IPMC ", " IPMC", "boot\\t", "\\nfw", " " are in the pool shared '
+        'with find_component_id_by_descriptor (evidence: name_written:*, password_written:*, name_read:*, descriptor:*).  '
+        'A case = one call; distinct '
         'by (operation, arguments, state digest); every case is non-trivial (a request reaches the BMC).')
 ASSUMPTIONS = [
     'the reference BMC (lean/PyIpmi/Spec/Bmc.lean) is my reading of IPMI v2.0 ch. 20/22/23/27/28/29/35, '
     'PICMG 3.0 ch. 3 and HPM.1; it is permissive (every address exists, reserved field values are stored as sent, '
     'parameter lengths are not policed)',
+    'a str argument (user name, password) denotes its characters, one byte each, NUL padded to the 16-byte field - '
+    'blank characters at either end are characters of the name like any other (IPMI v2.0 22.28 / 22.30: ASCII, no '
+    'character excluded); a trailing NUL is the padding itself; non-ASCII characters are not generated',
     'denotation of Python argument values (enum members and strings -> codes by meaning, 7-bit event receiver '
     'address, LED durations in 10 ms units on write / ms on read) is '
     'part of the harness (harness/props/c07.py op table) and of Spec.Bmc.run',
@@ -348,6 +360,70 @@ def g_ascii(r, hi=16):
     return bytes(r.randrange(0x20, 0x7f) for _ in range(n))
 
 
+# ASCII characters Python's str.strip() / str.split() treat as blank - legal characters of an IPMI user name or
+# password (IPMI v2.0 22.28 / 22.30: sixteen bytes of ASCII, NUL padded), like any other
+BLANKS = [0x20, 0x20, 0x20, 0x09, 0x0a, 0x0d, 0x0b, 0x0c, 0x1c, 0x1f]
+NAME_SHAPES = ['lead', 'trail', 'both', 'only-blanks', 'inner', 'full-trailing-blank', 'full-leading-blank', 'pair',
+               'nul-inside']
+
+
+def name_of_shape(r, shape, hi=16):
+    """a string argument (user name / password / component descriptor, at most `hi` characters) of the given shape:
+    blank characters (space, tab, newline, ...) in front, behind, both, nothing else, inside only, the full `hi`
+    characters ending / beginning with a blank, a NUL before the last character"""
+    def solid(n):
+        return bytes(r.choice([r.randrange(0x21, 0x7f), r.choice(b'rootadminlab0123')]) for _ in range(n))
+
+    def ws(n):
+        return bytes(r.choice(BLANKS) for _ in range(n))
+    if shape == 'lead':
+        k = r.choice([1, 1, 2, 3])
+        return ws(k) + solid(r.randint(1, hi - k))
+    if shape == 'trail':
+        k = r.choice([1, 1, 2, 3])
+        return solid(r.randint(1, hi - k)) + ws(k)
+    if shape == 'both':
+        a, b = r.choice([1, 1, 2]), r.choice([1, 1, 2])
+        return ws(a) + solid(r.randint(1, hi - a - b)) + ws(b)
+    if shape == 'only-blanks':
+        return ws(r.choice([1, 1, 2, 5, hi - 1, hi]))
+    if shape == 'inner':
+        n = r.randint(3, hi)
+        x = bytearray(solid(n))
+        for _ in range(r.choice([1, 1, 2, 3])):
+            x[r.randrange(1, n - 1)] = r.choice(BLANKS)
+        return bytes(x)
+    if shape == 'full-trailing-blank':
+        return solid(hi - 1) + ws(1)
+    if shape == 'full-leading-blank':
+        return ws(1) + solid(hi - 1)
+    if shape == 'nul-inside':
+        n = r.randint(2, hi - 1)
+        return solid(n - 1) + b'\0' + solid(1)
+    raise ValueError(shape)
+
+
+def g_name(r, hi=16):
+    """user names and passwords: printable text of every length 0..16 (g_ascii) and, half of the time, the shapes
+    with blank characters (NAME_SHAPES) that input-hygiene code tends to clean up"""
+    if r.random() < 0.5:
+        return g_ascii(r, hi)
+    return name_of_shape(r, r.choice([x for x in NAME_SHAPES if x != 'pair']), hi)
+
+
+def name_shape(b):
+    """classify a generated string (input distribution)"""
+    if not b:
+        return 'empty'
+    bl = set(BLANKS)
+    if all(c in bl for c in b):
+        return 'only-blanks'
+    lead, trail = b[0] in bl, b[-1] in bl
+    tag = 'blank-both-ends' if lead and trail else 'leading-blank' if lead else 'trailing-blank' if trail else \
+        'inner-blank' if any(c in bl for c in b) else 'no-blank'
+    return tag + (':16' if len(b) == 16 else '')
+
+
 BOOT_DEV_VALUES = ['no override', 'pxe', 'default hard drive', 'default hard drive safe mode',
                    'diagnostic partition', 'cd', 'bios setup', 'remote removable media', 'remote cd',
                    'primary remote media', 'remote hard drive', 'primary removable media (usb)']   # order of Spec BootDev.all
@@ -534,7 +610,7 @@ _op('get_vlan_id', 'lan', True, lambda r: _T(g_chan(r)), lambda ip, t: ip.get_vl
 _op('set_vlan_id', 'lan', False, lambda r: _T(r.choice([0, 1, 255, 256, 394, 4094, 4095, r.randrange(4096)]), g_chan(r)),
     lambda ip, t: ip.set_vlan_id(int(t[0]), int(t[1])), c_none)
 # --- users
-_op('set_username', 'users', False, lambda r: _T(g_uid(r), lean.hexs(g_ascii(r))),
+_op('set_username', 'users', False, lambda r: _T(g_uid(r), lean.hexs(g_name(r))),
     lambda ip, t: ip.set_username(int(t[0]), lean.unhex(t[1]).decode('ascii')), c_none)
 _op('get_username', 'users', True, lambda r: _T(g_uid(r)), lambda ip, t: ip.get_username(int(t[0])), c_hex, ['set_username', 'mut:users'])
 _op('get_user_access', 'users', True, lambda r: _T(g_uid(r), g_chan(r)), lambda ip, t: ip.get_user_access(int(t[0]), int(t[1])),
@@ -544,7 +620,7 @@ _op('set_user_access', 'users', False,
                  0 if r.random() < 0.25 else 1, g_bits(4)(r)),
     lambda ip, t: ip.set_user_access(int(t[0]), int(t[1]), int(t[2]), int(t[3]), _priv_member(int(t[4])), int(t[5]), int(t[6]), int(t[7])),
     c_none)
-_op('set_user_password', 'users', False, lambda r: _T(g_uid(r), lean.hexs(g_ascii(r))),
+_op('set_user_password', 'users', False, lambda r: _T(g_uid(r), lean.hexs(g_name(r))),
     lambda ip, t: ip.set_user_password(int(t[0]), lean.unhex(t[1]).decode('ascii')), c_none)
 _op('enable_user', 'users', False, lambda r: _T(g_uid(r)), lambda ip, t: ip.enable_user(int(t[0])), c_none)
 _op('disable_user', 'users', False, lambda r: _T(g_uid(r)), lambda ip, t: ip.disable_user(int(t[0])), c_none)
@@ -639,7 +715,8 @@ OPS['query_rollback_status'].sigfield = lambda tok, exp, obs: None if (obs[:3] i
 # as the key of find_component_id_by_descriptor.  Descriptions / descriptors come from a pool shared with the
 # driver's state generator (`descrPool` of Drivers/C07.lean) plus random printable text with backslashes.
 DESCR_POOL = [b'IPMC', b'fw\\update', b'A\\u0042C', b'ABC', b'\\U00000041', b'\\\\u0041', b'boot\\', b'\\u0000a',
-              b'\\x41', b'\\ud800', b'\\U00110000', b'FPGA #1', b'Twelve chars']
+              b'\\x41', b'\\ud800', b'\\U00110000', b'FPGA #1', b'Twelve chars',
+              b'IPMC ', b' IPMC', b'boot\t', b'\nfw', b' ']      # begin / end with a blank character
 g_comp = _pool([0, 1, 2, 3, 4, 5, 6, 7], 256)
 
 
@@ -821,6 +898,13 @@ def run_history(drv, hist, modelled, ctx=None, verbose=False):
             ctx.case((st['op'], tuple(tok), digests[bi]))
             ctx.count('op:' + st['op'])
             ctx.count('family:' + op.fam)
+            if st['op'] in ('set_username', 'set_user_password'):
+                ctx.count('%s:%s' % ('name_written' if st['op'] == 'set_username' else 'password_written',
+                                     name_shape(lean.unhex(tok[1]))))
+            if st['op'] == 'get_username' and not exp_res.startswith(('cc:', 'py:')):
+                ctx.count('name_read:' + name_shape(lean.unhex(exp_res).rstrip(b'\0')))
+            if st['op'] == 'find_component_id_by_descriptor':
+                ctx.count('descriptor:' + name_shape(lean.unhex(tok[0])))
             ctx.count('outcome:' + ('cc' if obs.startswith('cc:') else 'exception' if obs.startswith('py:') else 'ok'))
             if st['op'] == 'get_lan_config_param':
                 ctx.count('lan_read:' + ('revision-only channel %s' % ('0' if tok[0] == '0' else '1-15') if tok[4] == '1' else 'data'))
@@ -1014,6 +1098,33 @@ def directed_histories(rng):
     # selector / IP source code (KeyError)
     H([C('get_username', 0), C('set_username', 0, lean.hexs(b'ab')), C('enable_user', 0), C('get_user_access', 0, 1),
        C('set_user_password', 0, lean.hexs(b'pw')), C('get_username', 2)])
+    # STRING ARGUMENTS THAT BEGIN / END WITH BLANK CHARACTERS (space, tab, newline, ...), consist of nothing else, carry
+    # them inside only, or fill all 16 characters with the blank last / first: the BMC stores exactly the 16 NUL-padded
+    # bytes the argument denotes; names that differ only by such a character are different names (read back both)
+    for shape in NAME_SHAPES:
+        for rep in range(2):
+            u1, u2 = rng.sample([1, 2, 3, 4, 10, 62, 63], 2)
+            if shape == 'pair':
+                base = name_of_shape(rng, 'inner', 12) if rep else rng.choice([b'root', b'admin', b'lab'])
+                blank = bytes([rng.choice(BLANKS)])
+                a, b = (base + blank, base) if rng.random() < 0.5 else (blank + base, base)
+                if rng.random() < 0.5:
+                    a, b = b, a
+                H([C('set_username', u1, lean.hexs(a)), C('set_username', u2, lean.hexs(b)), C('get_username', u1),
+                   C('get_username', u2), C('set_user_password', u1, lean.hexs(a)), C('set_user_password', u2, lean.hexs(b))])
+            else:
+                nm, pw = name_of_shape(rng, shape), name_of_shape(rng, shape)
+                H([C('set_username', u1, lean.hexs(nm)), C('get_username', u1), C('set_user_password', u1, lean.hexs(pw)),
+                   C('get_username', u2)])
+    for d in (b'IPMC ', b' IPMC', b'IPMC', b'boot\t', b'\nfw', b' ', b'FPGA #1'):
+        H([{'mut': 0, 'seed': rng.randrange(1 << 30), 'fam': 'hpm'}, C('find_component_id_by_descriptor', lean.hexs(d)),
+           C('get_component_property', rng.randrange(8))])
+    # send_channel_power: EVERY current limit the one-byte field can carry (tenths of an ampere 0..255 whose float k/10.0
+    # denotes k, _limit_ok) - a conversion that is exact for whole and half amperes only is not exact
+    ks = [k for k in range(256) if _limit_ok(k)]
+    for i in range(0, len(ks), 64):
+        H([C('send_channel_power', rng.choice([1, 2, 3, 16]), (k + i) % 2, k, rng.choice([0, 1, 0xff]), rng.choice([0, 1, 0xff]))
+           for k in ks[i:i + 64]])
     for ty in (3, 4, 255):
         H([C('get_power_level', 1, ty)])
     for code in (10, 12, 13, 14):
